@@ -53,13 +53,22 @@ func mkCases(tier string) int {
 	return 32
 }
 
-func (c09) NumCases(tier string) int { return baseCases(tier) + mkCases(tier) }
+// ... and after those, determinism cases over the merge-alias schemas of alias.go
+func alCases(tier string) int {
+	if tier == fw.Thorough {
+		return 240
+	}
+	return 16
+}
+
+func (c09) NumCases(tier string) int { return baseCases(tier) + mkCases(tier) + alCases(tier) }
 
 func (c09) Rule() string {
 	return "Inputs as in C01: generated federation layout (2-3 subgraphs, entities with keys, @requires, @provides, @shareable, interfaces, unions, mutations) x valid-by-construction operations x coercible variables, executed by real ExecutionEngines whose subgraphs are in-process semantic servers over one hash-defined universe and whose transport records every subgraph request. Half of the operations are amplified (object-valued root fields repeated under fresh aliases: what minification, multi-fetch merging act on) and, where the schema allows, get a pair of twin fragments (... on A { f {..} } ... on B { f {..} } under an abstract field: what fetch de-duplication acts on). Case kinds by index mod 5. " +
 		"DETERMINISM (0,1): " + fmt.Sprint(detOps) + " operations on " + fmt.Sprint(detEngines) + " engines built freshly from the same configuration (default options for kind 0, the case's option set for kind 1; run-time single flight off so that the transport sees exactly what the plan yields), each executing the operations in a different order (so every operation is planned by an engine without history and by one with previous plans); compared per operation: normalised operation text (premise), the multiset of subgraph requests (subgraph, exact operation text, variables as JSON value; separately the exact request bodies) and the exact response bytes. A difference of the requests on the wire is attributed to planning only if each engine reproduces its own request multiset in " + fmt.Sprint(selfRepeats) + " further executions of its (then cached) plan; otherwise it is run-time variation of ONE plan (counted and listed, not a planning matter). Then the normalised operation is re-parsed and planned directly with plan.Planner (+ postprocess, query plans included) by two fresh planners over one configuration object, a fresh planner over a second configuration object built from the same layout, one re-used planner that plans all operations of the case forwards and then backwards (every operation twice, with different histories) and a diagnostic twin of it whose Visitor maps the harness empties before each plan - under the default option set and the case's option set; a canonical reflection dump of the whole plan (response tree, fetch tree incl. fetch inputs, variables, post-processing, dependencies; every field, exported or not; data source instances and traces opaque) and the printed FetchTreeNode.QueryPlan must be identical. Every fourth determinism case also recomputes everything in a NEW PROCESS (same binary, fresh hash seeds) and compares. Each operation is also planned once under every single option to count how often the option changes the plan at all (live_* counters). " +
 		"TRANSPARENCY sequential (2,3) / concurrent (4): one shared engine built with option set O (the 16 subsets of {fetch de-duplication off, multi-fetch merging on, DAG scheduling on, subgraph-operation minification on} enumerated by case ordinal) serves a history of 15-30 requests: " + fmt.Sprint(seqOps) + " base operations each repeated 2-3 times, plus per base operation: same text with other variable values, all variables renamed, a literal turned into a variable, a fragment-structure variant (same plan-cache key by design), an invalid operation and an invalid variables object (must be refused alike), shuffled. Every response (exact bytes; or the error text when Execute fails) must equal the response of a FRESH default-options engine that serves only that single request; a variable-renamed request must get the bytes of its original. Plan-cache hits are detected per request (cached plan count unchanged by a successful request) in the sequential kind and bounded from below (successful requests - cached plans) in the concurrent kind, where " + fmt.Sprint(concWorkers) + " goroutines issue permutations of the history simultaneously under the race detector. " +
 		"MULTI-KEY DETERMINISM (the cases appended after the first 160/2400): PRNG-parameterised layouts of this package (multikey.go) in which one entity has three keys and every subgraph knows only some of them - root subgraph k1, target subgraph k3, 2-3 bridge subgraphs (k1+k3; chains k1+k2 / k2+k3; mixed key sets), controls with a direct jump or a single best route; names, key names and types, field owners and the REGISTRATION ORDER of the data sources are drawn - served by semantic subgraphs that identify an entity by any key they know (fixed bijection between the keys); 4 operations per layout that need the target's fields; the same determinism oracle (fresh engines, fresh / re-used / twin planners, new process every third case). In the sequential/concurrent kinds every operation with a field selected on the interface and again under one concrete type is also answered by a fresh engine with ONLY fetch de-duplication off and compared with the default engine (universe seed chosen among 8 so that a parent outside that type is in the data). " +
+		"MERGE-ALIAS HISTORIES (the last 16/240 cases): PRNG-drawn small schemas of this package (alias.go) - a union or interface of 2-3 members whose common fields conflict in nullability or abstract-vs-member type (also one level down), which makes the planner give member fields generated __internal_merge_ aliases - and histories of " + fmt.Sprint(aliasOps) + " small operations alternating alias-needing and plain selections; one re-used plan.Planner (and its twin) plans the history forwards and backwards and every plan must equal a fresh planner's (same oracle as above; counters al_* say how many histories and re-used plans came after a merge-alias plan). " +
 		"Non-trivial = determinism: an operation with >=2 subgraph requests incl. >=1 _entities request compared on all engines and planners; transparency: >=1 cache-served response compared and >=1 operation with >=2 subgraph requests. Distinct by hash of (layout, operation, variables) resp. (layout, option set, history)."
 }
 
@@ -93,6 +102,7 @@ func (c09) RequiredCounters(string) []string {
 		"effect_multifetch_merged_request", "effect_minified_request",
 		"live_multifetch_changes_plan", "live_schedule_changes_plan", "live_minify_changes_plan",
 		"reference_engines",
+		"al_cases", "al_operations_with_merge_aliases", "al_histories_with_merge_aliases", "al_reused_planner_plans_after_a_merge_alias_plan",
 		"mk_cases", "mk_layouts_with_tied_indirect_routes", "mk_control_layouts", "mk_operations_routed_through_a_bridge",
 		"mk_operations_with_tied_indirect_routes", "mk_control_operations_direct_jump", "mk_clean_responses",
 	}
@@ -209,6 +219,8 @@ type input struct {
 	favourable bool
 	// mk family only
 	mkInfo *mkLayout
+	// al family only
+	alInfo *alLayout
 }
 
 type subDesc struct{ Name, SDL string }
@@ -1019,6 +1031,10 @@ func classifyErr(msg string) string {
 // ---------------------------------------------------------------------------------------------
 
 func (p c09) Run(c *fw.Ctx, idx int) fw.Result {
+	if ord := idx - baseCases(c.Tier) - mkCases(c.Tier); ord >= 0 {
+		// merge-alias histories: option set by ordinal, default-option engines, every fourth case in a new process too
+		return runDetFamily(c, idx, "al", (ord*3)%16, 0, ord%4 == 0)
+	}
 	if ord := idx - baseCases(c.Tier); ord >= 0 {
 		// multi-key determinism: option set by ordinal (0 = default), engines carry it in every
 		// second case, every third case is also recomputed in a new process
